@@ -63,10 +63,10 @@ if 'RES' in ob and 'C07' in ob:
         if t not in ob['C07']['theorems']:
             ob['C07']['theorems'].append(t)
 # cross-property compositions (Properties/Compose.lean): each theorem is audited with the checks of the properties it composes
-if 'X' in ob:
-    for pid, thms in ob['X'].get('attach', {}).items():
+for xk in [k for k in ob if k.startswith('X')]:
+    for pid, thms in ob[xk].get('attach', {}).items():
         if pid in ob:
-            for m in ob['X']['modules']:
+            for m in ob[xk]['modules']:
                 if m not in ob[pid]['modules']:
                     ob[pid]['modules'].append(m)
             for t in thms:
